@@ -12,7 +12,7 @@ RULE = ("deterministic virtual-clock event loop; a real BaseClient (recording se
         "event, matching event, non-match then match in one receive batch, two matching events in one batch} is injected through "
         "process_message; timeout in {none, 2.25, 4.25, 7.25} (never tying with the grid), polling in {off, delay 1/interval 1, delay "
         "2/interval 3}, condition kind {expect, initial, check} x event kind {value, state, any = no element filter and default event type, where the "
-        "non-matching events are re-definitions raising value, state and definition events}. The complete grid is enumerated (quick: 5 "
+        "non-matching events are re-definitions raising value, state and definition events}. The complete grid is enumerated (quick: 6 "
         "points, thorough: 7 points). Oracle: the wait returns the FIRST matching event object (identity, from an always-registered "
         "spy) at that event's virtual instant, or raises at exactly the timeout instant - never both, never neither; getProperties "
         "polls happen exactly at delay + k*interval while waiting and never after completion; no callback stays registered. "
@@ -20,8 +20,9 @@ RULE = ("deterministic virtual-clock event loop; a real BaseClient (recording se
 ASSUMPTIONS = ["exact ties between an event and the timeout instant are excluded by off-grid constants"]
 REQUIRED_EVENTS = ["runs", "waits_completed_by_event", "waits_timed_out", "waits_still_pending_without_timeout", "polls_observed",
                    "batches_with_two_matches", "redefinitions_injected"]
-EXHAUSTIVE_NOTE = "every assignment of the five slot kinds to every grid point x timeouts x polling x conditions (quick: 5 grid points; thorough: 7)"
+EXHAUSTIVE_NOTE = "every assignment of the five slot kinds to every grid point x timeouts x polling x conditions (quick: 6 grid points; thorough: 7)"
 
+QUICK_SHARDS = 4
 SLOTS = ["-", "x", "m", "xm", "mm"]
 TIMEOUTS = [None, 2.25, 4.25, 7.25]
 POLLING = [None, (1.0, 1.0), (2.0, 3.0)]
@@ -326,7 +327,7 @@ def one_case(ctx, case):
 
 
 def run(ctx):
-    npoints = 5 if not ctx.thorough else 7
+    npoints = 6 if not ctx.thorough else 7
     i = 0
     for pattern in itertools.product(SLOTS, repeat=npoints):
         for ti, timeout in enumerate(TIMEOUTS):
